@@ -1287,3 +1287,56 @@ pub fn cmd_trace(args: &[String]) -> i32 {
     }
     0
 }
+
+/// `ppgmc plan`: the families every check runs, per tier (markdown; pasted into DESIGN.md)
+pub fn cmd_plan() -> i32 {
+    println!("| property | quick tier: family (universes, depth, faults per step, options) | added by the thorough tier |");
+    println!("|---|---|---|");
+    let describe = |r: &Run| -> String {
+        let f: String = (0..r.spec.depth).map(|i| if r.spec.faults.get(i).copied().unwrap_or(true) { 'f' } else { '-' }).collect();
+        let mut opts: Vec<String> = Vec::new();
+        if let Some(k) = r.spec.edit_bound {
+            opts.push(format!("k<={}", k));
+        }
+        if r.spec.follow {
+            opts.push("follow-up".into());
+        }
+        if r.spec.twin {
+            opts.push("twin".into());
+        }
+        if r.spec.misuse {
+            opts.push("misuse".into());
+        }
+        if r.spec.noise {
+            opts.push(format!("{:?}", r.spec.cmp).to_lowercase());
+        } else if r.spec.cmp != Cmp::Plain {
+            opts.push(format!("{:?}", r.spec.cmp).to_lowercase());
+        }
+        if r.spec.conv == Conv::Parts {
+            opts.push("parts".into());
+        }
+        if r.spec.orders != Orders::None {
+            opts.push(format!("orders:{:?}{}", r.spec.orders, if r.spec.orders_faulty { "+faults" } else { "" }));
+        }
+        if r.spec.fail_mode == FailMode::Remove {
+            opts.push("remove-on-failure".into());
+        }
+        if r.spec.reconsider {
+            opts.push("reconsider_all_jobs".into());
+        }
+        format!("`{}` ({}, {}, {}{}{})", r.spec.name, r.universes.len(), r.spec.depth, f, if opts.is_empty() { "" } else { ", " }, opts.join(" "))
+    };
+    for p in 1..=20u32 {
+        if p == 19 {
+            println!("| C19 | big-graph family (mc/src/big.rs): 6 shapes x 5 kind mixes x 7 cascades x sizes 10..4000 x 3 schedules | sizes up to 30000 |");
+            continue;
+        }
+        let q = plan(p, "quick");
+        let t = plan(p, "thorough");
+        let qn: Vec<String> = q.iter().map(describe).collect();
+        let qnames: std::collections::BTreeSet<String> = q.iter().map(|r| r.spec.name.clone()).collect();
+        let tn: Vec<String> = t.iter().filter(|r| !qnames.contains(&r.spec.name)).map(describe).collect();
+        println!("| C{:02} | {} | {} |", p, qn.join(", "), tn.join(", "));
+    }
+    0
+}
